@@ -22,7 +22,7 @@ import (
 func init() {
 	Registry["C07"] = &Check{
 		Scenarios: c07Scenarios,
-		Rule: "schedules: W in {2,3} writer threads, 1-2 messages each with sizes from {200 B, 2 KiB, 5 KiB} (below/above the 1 KiB pooled serialisation buffer and the 4 KiB bufio buffer) written to one diam.Conn through Message.WriteTo, Conn.Write with caller-serialised bytes and Message.WriteToStreamWithRetry (rotating per writer and message) over an in-memory transport whose Write stalls between two pieces; every schedule up to the preemption bound (W=2: bound 2 quick / unbounded thorough; W=3: bound 2 / 3), happens-before state caching. faults: every sequence of write outcomes (bytes accepted k in {0,1,n/2,n-1,n} x {temporary, permanent, nil}) of length <= retries+1 for retries 0..3 against writeRetry (io.Writer) and writeStreamRetry (MultistreamWriter), and through a diam.Conn over a faulting transport with two messages of sizes {200+2048, 5000+200, 200+5000, 4116+6000} (below and above the connection's 4 KiB write buffer): the wire must hold every message whose write returned nil, whole, once and in order, a failed write contributes a prefix of its message, and nothing may follow a torn message. stale-connection: a write to a connection that has ended, after a new connection was created, never reaches the new connection's transport. close-during-write: one writer (200 / 4096 / 5120 bytes) whose transport write stalls half way and an application goroutine closing the connection at every instant (preemption bound 3): the transport never receives more than a prefix of the message. sizes: every message size 32..8300 (multiples of four) through WriteTo / Conn.Write / WriteToWithRetry on a fault-free connection: the transport holds exactly the message as soon as the write has returned.",
+		Rule: "schedules: W in {2,3} writer threads, 1-2 messages each with sizes from {200 B, 2 KiB, 5 KiB} (below/above the 1 KiB pooled serialisation buffer and the 4 KiB bufio buffer) written to one diam.Conn through Message.WriteTo, Conn.Write with caller-serialised bytes and Message.WriteToStreamWithRetry (rotating per writer and message) over an in-memory transport whose Write stalls between two pieces; every schedule up to the preemption bound (W=2: bound 2 quick / unbounded thorough; W=3: bound 2 / 3), happens-before state caching. faults: every sequence of write outcomes (bytes accepted k in {0,1,n/2,n-1,n} x {temporary, permanent, nil}) of length <= retries+1 for retries 0..3, and of length <=3 for the retry budgets 2^31, 2^32, 2^63, 2^64-2 and 2^64-1 (what a caller passes to mean 'keep retrying'), against writeRetry (io.Writer) and writeStreamRetry (MultistreamWriter), and through a diam.Conn over a faulting transport with two messages of sizes {200+2048, 5000+200, 200+5000, 4116+6000} (below and above the connection's 4 KiB write buffer): the wire must hold every message whose write returned nil, whole, once and in order, a failed write contributes a prefix of its message, and nothing may follow a torn message. stale-connection: a write to a connection that has ended, after a new connection was created, never reaches the new connection's transport. close-during-write: one writer (200 / 4096 / 5120 bytes) whose transport write stalls half way and an application goroutine closing the connection at every instant (preemption bound 3): the transport never receives more than a prefix of the message. sizes: every message size 32..8300 (multiples of four) through WriteTo / Conn.Write / WriteToWithRetry on a fault-free connection: the transport holds exactly the message as soon as the write has returned.",
 		Assume: []string{"data-race freedom between visible operations (audited separately with -race)", "the source rewriter and shims preserve Go semantics (shim unit tests)"},
 		QuickBudget: 100, ThoroughBudget: 1500,
 	}
@@ -267,8 +267,14 @@ func c07Faults(r *SeqResult, stream bool) {
 	for _, size := range []int{200, 2048} {
 		m := c07msg(0, 0, size)
 		want, _ := m.Serialize()
-		for retries := uint(0); retries <= 3; retries++ {
-			for _, sc := range allScripts(int(retries) + 2) {
+		// retry budgets 0..3 with every outcome script up to the budget, and the large budgets a
+		// caller passes to mean "keep retrying" (2^31, 2^32, 2^63, the maximum) with scripts of <=3
+		for _, retries := range []uint{0, 1, 2, 3, 1 << 31, 1 << 32, 1 << 63, ^uint(0) - 1, ^uint(0)} {
+			scriptLen := 3
+			if retries <= 3 {
+				scriptLen = int(retries) + 2
+			}
+			for _, sc := range allScripts(scriptLen) {
 				var n int64
 				var err error
 				var sw *scriptWriter
@@ -304,7 +310,7 @@ func c07Faults(r *SeqResult, stream bool) {
 				if panicked != "" {
 					v = "PANIC in the retry loop: " + panicked
 				} else {
-					v = c07FaultOracle(want, sc, int(retries), n, err, sw)
+					v = c07FaultOracle(want, sc, retries, n, err, sw)
 				}
 				if v != "" && r.Violation == "" {
 					r.Violation = fmt.Sprintf("%s (message of %d bytes, retries=%d, write outcomes (K,Kind)=%v; K indexes {0,1,n/2,n-1,n} bytes accepted, Kind 0 nil 1 temporary 2 permanent)", v, len(want), retries, sc)
@@ -315,7 +321,7 @@ func c07Faults(r *SeqResult, stream bool) {
 	}
 }
 
-func c07FaultOracle(want []byte, sc []wOutcome, retries int, n int64, err error, sw *scriptWriter) string {
+func c07FaultOracle(want []byte, sc []wOutcome, retries uint, n int64, err error, sw *scriptWriter) string {
 	// reference model of the retry loop, from the property statement
 	pos, calls := 0, 0
 	var finalErr error
@@ -346,7 +352,7 @@ func c07FaultOracle(want []byte, sc []wOutcome, retries int, n int64, err error,
 			break
 		}
 		finalErr = tempErr{}
-		if calls > retries { // budget: at most retries+1 calls
+		if uint(calls) > retries { // budget: at most retries+1 calls
 			break
 		}
 	}
